@@ -192,8 +192,12 @@ def run_cases(mod, tier, seed, shard, nshards, limit_s):
             if mech is not None:
                 out.known[mech].append(index)
             if violation is not None:
-                out.violations.append((index, case, violation))
-                if len(out.violations) >= 5:
+                kinds = collections.Counter(
+                    v[2]['kind'] for v in out.violations)
+                if kinds[violation['kind']] < 3:
+                    out.violations.append((index, case, violation))
+                out.stats['cases_violating'] += 1
+                if out.stats['cases_violating'] >= 60 or len(kinds) >= 6:
                     break
     finally:
         out.reach = reach.stop()
